@@ -618,6 +618,32 @@ func c10Lockset(c *core.Ctx) {
 			}
 		}
 	}
+	// ... and the private helpers that are called only from such initialisers
+	for changed := true; changed; {
+		changed = false
+		for lit := range onceClosures {
+			for _, cj := range facts.CallsIn(lit) {
+				h := cj.Common().StaticCallee()
+				if h == nil || onceClosures[h] {
+					continue
+				}
+				sites := privateCallSites(h)
+				if len(sites) == 0 {
+					continue
+				}
+				all := true
+				for _, s0 := range sites {
+					if !onceClosures[s0.Parent()] {
+						all = false
+					}
+				}
+				if all {
+					onceClosures[h] = true
+					changed = true
+				}
+			}
+		}
+	}
 	n := 0
 	for _, fn := range la.fns {
 		for _, b := range fn.Blocks {
